@@ -75,7 +75,9 @@ class Check:
     def floor(self, what, count, minimum):
         """A rule that matches fewer instances than were confirmed by hand is an analysis error."""
         if count < minimum:
-            raise AnalysisError(f"instance floor: {what}: found {count}, confirmed by hand >= {minimum}")
+            # the rule no longer sees the instances confirmed by hand: its silence means nothing.  Deferred like an undecided obligation: a definite violation
+            # found elsewhere in the run is still reported (exit 1); without one the run is an analysis error (exit 2)
+            self.defer(f"instance floor: {what}: found {count}, confirmed by hand >= {minimum}")
 
     def ok(self, rule, instance, detail="", where="", cells=1, distinct=None):
         self.obligations.append(dict(rule=rule, instance=instance, status="discharged", detail=detail, where=where, cells=cells))
